@@ -8,6 +8,7 @@ import (
 
 	"golang.org/x/tools/go/ssa"
 
+	"sheensverif/internal/flow"
 	"sheensverif/internal/prog"
 	"sheensverif/internal/pta"
 	"sheensverif/internal/ssau"
@@ -203,6 +204,8 @@ func C12(c *Ctx) {
 			{"result.Nodes[].Branches.Branches", []string{".Nodes", "[]", ".Branches", ".Branches"}},
 			{"result.Nodes[].Branches.Branches[]", []string{".Nodes", "[]", ".Branches", ".Branches", "[]"}},
 			{"result.Nodes[].ActionSource", []string{".Nodes", "[]", ".ActionSource"}},
+			{"result.Nodes[].Branches.Branches[].GuardSource", []string{".Nodes", "[]", ".Branches", ".Branches", "[]", ".GuardSource"}},
+			{"result.Nodes[].Branches.Branches[].Pattern", []string{".Nodes", "[]", ".Branches", ".Branches", "[]", ".Pattern"}},
 		}
 		for _, p := range paths {
 			locs := res
@@ -216,6 +219,16 @@ func C12(c *Ctx) {
 				}
 			}
 			sort.Strings(bad)
+			if len(bad) > 0 && strings.HasSuffix(p.name, ".Pattern") {
+				// E1 does not tell a map from a scalar inside an interface value: a copier that hands
+				// scalars back as they are is judged by its shape instead
+				if why := deepPatternCopy(c); why == "" {
+					c.R.Discharge("C12-R5", p.name, c.P.Pos(cp.Pos()), "Branch.Copy copies the pattern's maps and arrays recursively; only scalars are shared")
+					continue
+				} else {
+					bad = append(bad, why)
+				}
+			}
 			c.R.Check(len(bad) == 0 && (len(locs) > 0 || len(p.steps) > 4), "C12-R5", p.name, c.P.Pos(cp.Pos()), "only objects allocated by the copy: "+locsString(locs),
 				"the copy shares spec structure with the original: "+strings.Join(bad, ", ")+" (all: "+locsString(locs)+")")
 		}
@@ -254,4 +267,95 @@ func c12Atomic(c *Ctx) {
 	if n == 0 {
 		c.R.Break("C12-R3: field UpdatableSpec.spec not found")
 	}
+}
+
+// deepPatternCopy: Branch.Copy stores into Pattern the result of a function that answers with a map or slice it
+// made (whose members are results of the same function) and hands its operand back only where the operand is
+// known to be neither a map nor a slice.  Returns "" if so, else what is wrong.
+func deepPatternCopy(c *Ctx) string {
+	bc := c.P.Func("core", "Branch", "Copy")
+	if bc == nil {
+		return "core.Branch.Copy not found"
+	}
+	var g *ssa.Function
+	for _, st := range storesTo(bc, "Branch", "Pattern") {
+		cl, ok := st.Val.(*ssa.Call)
+		if !ok || cl.Common().StaticCallee() == nil || cl.Common().StaticCallee().Blocks == nil {
+			return "Branch.Copy stores the receiver's pattern itself"
+		}
+		g = cl.Common().StaticCallee()
+	}
+	if g == nil || len(g.Params) == 0 {
+		return "Branch.Copy does not set Pattern"
+	}
+	x := g.Params[len(g.Params)-1]
+	isContainer := func(t types.Type) bool {
+		switch t.Underlying().(type) {
+		case *types.Map, *types.Slice:
+			return true
+		}
+		return false
+	}
+	for _, b := range g.Blocks {
+		ret, ok := b.Instrs[len(b.Instrs)-1].(*ssa.Return)
+		if !ok || len(ret.Results) != 1 {
+			continue
+		}
+		for _, d := range phiDefs(ret.Results[0], nil, map[ssa.Value]bool{}) {
+			if mi, isMI := d.(*ssa.MakeInterface); isMI {
+				d = mi.X
+			}
+			switch v := d.(type) {
+			case *ssa.MakeMap, *ssa.MakeSlice:
+				continue
+			case *ssa.Slice:
+				if _, isAl := v.X.(*ssa.Alloc); isAl {
+					continue
+				}
+			case *ssa.Parameter:
+				if v == x {
+					// only where x is known to be no container
+					excluded := 0
+					for _, ft := range flow.FactsAt(b) {
+						if ex, isEx := ft.Cond.(*ssa.Extract); isEx && ex.Index == 1 && !ft.True {
+							if ta, isTA := ex.Tuple.(*ssa.TypeAssert); isTA && ta.X == ssa.Value(x) && isContainer(ta.AssertedType) {
+								excluded++
+							}
+						}
+					}
+					if excluded >= 2 {
+						continue
+					}
+				}
+			}
+			if ssau.IsNilConst(d) {
+				continue
+			}
+			return "the pattern copier " + g.Name() + " can hand back a map or array of the original (" + c.pos(ret) + ")"
+		}
+	}
+	// members of the containers it makes are copies too
+	bad := ""
+	ssau.Instrs(g, func(in ssa.Instruction) {
+		var val ssa.Value
+		switch v := in.(type) {
+		case *ssa.MapUpdate:
+			if _, isMake := v.Map.(*ssa.MakeMap); isMake {
+				val = v.Value
+			}
+		case *ssa.Store:
+			if ia, isIA := v.Addr.(*ssa.IndexAddr); isIA {
+				if _, isMake := ia.X.(*ssa.MakeSlice); isMake {
+					val = v.Val
+				}
+			}
+		}
+		if val == nil {
+			return
+		}
+		if cl, isC := val.(*ssa.Call); !isC || cl.Common().StaticCallee() != g {
+			bad = "a member of the copy is not itself copied (" + c.pos(in) + ")"
+		}
+	})
+	return bad
 }
